@@ -650,6 +650,77 @@ class C10:
                 self.rep.exhaustive = True
 
     # ============================================================ run
+    # ============================================================ E: the operating system refuses the write
+    def part_e(self, quick):
+        """Real I/O failure instead of the hook in front of write_raw: the server runs with SIGXFSZ ignored and its
+        RLIMIT_FSIZE is lowered from outside (prlimit) so that the file cannot grow beyond L bytes — whichever write
+        reaches the limit (a spill of the buffered writer, or its LAST flush) fails with EFBIG.  For every L below the
+        size of the new snapshot: SAVE must answer an error and dump.rdb must be byte for byte what it was."""
+        import resource
+        import signal
+        from server import Server
+        rep = self.rep
+        if self.srv is not None:
+            self.srv.stop()
+            self.srv = None
+        srv = Server("c10e", quiet=True, preexec_fn=lambda: signal.signal(signal.SIGXFSZ, signal.SIG_IGN))
+        c = srv.client(timeout=40.0)
+        INF = resource.RLIM_INFINITY
+        try:
+            c.cmd("SET", "small", "v")
+            if c.cmd("SAVE") != ("s", b"OK"):
+                raise InternalError("part E: clean SAVE failed")
+            prev = open(os.path.join(srv.dir, "dump.rdb"), "rb").read()
+            for size_tag, nkeys in (("below-one-buffer", 40), ("several-buffers", 400)):
+                for i in range(nkeys):
+                    c.cmd("SET", "e:%s:%d" % (size_tag, i), "x" * 100)
+                # size of the snapshot that a successful save would write now
+                if c.cmd("SAVE") != ("s", b"OK"):
+                    raise InternalError("part E: clean SAVE failed")
+                full = len(open(os.path.join(srv.dir, "dump.rdb"), "rb").read())
+                # put the old dump back as 'the dump before'
+                open(os.path.join(srv.dir, "dump.rdb"), "wb").write(prev)
+                limits = sorted(set(x for x in (0, 1, len(prev) - 1, len(prev), len(prev) + 1, 3000, 4096, 8191, 8192, 8193, 16384, full // 2, full - 1)
+                                    if 0 <= x < full))
+                if quick:
+                    limits = limits[::2] + [full - 1]
+                for L in limits:
+                    for bg in (False, True):
+                        resource.prlimit(srv.p.pid, resource.RLIMIT_FSIZE, (L, INF))
+                        try:
+                            if bg:
+                                r = c.cmd("BGSAVE")
+                                wait_until(lambda: c.cmd("VERIF", "BGSAVING") == ("i", 0), "BGSAVE to end")
+                            else:
+                                r = c.cmd("SAVE")
+                        finally:
+                            resource.prlimit(srv.p.pid, resource.RLIMIT_FSIZE, (INF, INF))
+                        rep.evaluations += 1
+                        rep.count("E.limited-save" + (".bg" if bg else ""))
+                        rep.nontrivial(("E", size_tag, "bg" if bg else "fg", min(L, 8193).bit_length()))
+                        now_dump = open(os.path.join(srv.dir, "dump.rdb"), "rb").read() if os.path.exists(os.path.join(srv.dir, "dump.rdb")) else None
+                        rp = {"kind": "fsize", "limit": L, "snapshot_bytes": full, "previous_dump_bytes": len(prev), "bgsave": bg,
+                              "recipe": "server started with SIGXFSZ ignored; SET small v; SAVE; %d x SET e:* <100 bytes>; prlimit RLIMIT_FSIZE=%d; %s" % (nkeys, L, "BGSAVE" if bg else "SAVE")}
+                        if not bg and r[0] != "e":
+                            self.fail("SAVE answered %r although the file could not grow beyond %d of %d bytes (the write error was lost)" % (r, L, full), rp)
+                        if now_dump != prev:
+                            self.fail("a save that the OS cut at %d of %d bytes replaced the dump (%d bytes before, %s now)" % (
+                                L, full, len(prev), "absent" if now_dump is None else "%d bytes" % len(now_dump)), rp)
+                        if c.cmd("VERIF", "BGSAVING") != ("i", 0):
+                            self.fail("bgsave_in_progress still set after a save cut by the OS at %d bytes" % L, rp)
+                # and a save without the limit works again and is complete
+                if c.cmd("SAVE") != ("s", b"OK"):
+                    self.fail("a clean SAVE after saves cut by the OS does not work", {"kind": "fsize", "then": "SAVE"})
+                prev = open(os.path.join(srv.dir, "dump.rdb"), "rb").read()
+                if len(prev) != full:
+                    self.fail("the dump written by a clean SAVE after saves cut by the OS has %d bytes, expected %d" % (len(prev), full), {"kind": "fsize", "then": "SAVE"})
+                st = self.real_load(prev)
+                if st[0] != "ok":
+                    self.fail("the dump written by a clean SAVE after saves cut by the OS does not load", {"kind": "fsize", "then": "SAVE"})
+        finally:
+            c.close()
+            srv.stop()
+
     def samples(self, r):
         E = lambda key, ty, val, dl=None: {"key": key, "dl": dl, "ty": ty, "val": val}
         d1 = [(0, [E(b"s", "S", b"v1", LONG), E(b"l", "L", [b"a", b"", b"c"]), E(b"t", "T", [b"m"]), E(b"h", "H", [(b"f", b"v")], LONG),
@@ -670,6 +741,7 @@ class C10:
         self.part_a("no-previous-dump", samples[1][1], quick, start_absent=True)
         self.part_b(r.fork("B"), quick)
         self.part_c()
+        self.part_e(quick)
         # three small valid dumps: three databases, all six types, and one string key with a TTL
         srv, c = self.fresh_server()
         c.cmd("SET", b"k", b"v", "PX", str(LONG))
@@ -695,7 +767,9 @@ def main(tier, seed):
                 "compared byte for byte with the previous dump / the model's prefix; B: BGSAVE is parked at rdb.after_value / rdb.zset.after_len while grow, shrink, "
                 "delete, replace, persist, expire commands run on string/list/zset/stream(/hash) keys with and without TTL, the produced file is loaded by the real "
                 "loader and compared with the set of states of the key and with the model's record; C: SAVE during a parked BGSAVE, final dump bytes vs the file-system "
-                "model; D: every prefix and sampled (thorough: all) single-byte substitutions of 3 small dumps through the real loader with allocation tracking. "
+                "model; D: every prefix and sampled (thorough: all) single-byte substitutions of 3 small dumps through the real loader with allocation tracking; "
+                "E: real I/O failure - the server's RLIMIT_FSIZE is lowered from outside (SIGXFSZ ignored) to every boundary below the snapshot size (0, 1, old dump size +-1, "
+                "4096, 8191..8193, 16384, half, size-1) so that a buffer spill or the LAST flush fails with EFBIG: SAVE must answer an error, the dump must stay byte-identical, a later clean save must be complete. "
                 "distinct = (part, type, class, gate, verdict / outcome, size bucket) tuples reached")
     rep.assumptions = [
         "BufWriter is not modelled: it delays writes inside one save run only; the schedules compared with the real server are those in which a parked run's writes all happen after it is released (its output is below the 8 KiB buffer)",
